@@ -1,2 +1,3 @@
 pub mod cal;
+pub mod fmt;
 pub mod inst;
